@@ -225,9 +225,9 @@ GENERIC_FILES = ['permuta/bisc/bisc.py', 'permuta/bisc/bisc_subfunctions.py']
 
 
 def variants():
-    from ..selftest import generic_silent
+    from ..selftest import generic_equiv, generic_silent
 
-    return _variants() + generic_silent(GENERIC_FILES)
+    return _variants() + generic_silent(GENERIC_FILES) + generic_equiv(GENERIC_FILES)
 
 
 def _variants():
@@ -360,12 +360,18 @@ def rule_n1(ctx: Ctx) -> None:
     mines = [st for st in f.body if isinstance(st, ast.Assign) and isinstance(st.value, ast.Call) and call_name(st.value) == ("mine",)]
     forbs = [st for st in f.body if isinstance(st, ast.Assign) and isinstance(st.value, ast.Call) and call_name(st.value) == ("forb",)]
     rets = [st for st in f.body if isinstance(st, ast.Return)]
-    if len(mines) != 1 or len(forbs) != 1 or len(rets) != 1 or not isinstance(mines[0].targets[0], ast.Tuple):
+    if len(mines) != 1 or len(rets) != 1 or not isinstance(mines[0].targets[0], ast.Tuple):
+        raise AnalysisError(f"{f.where}: mine/forb pipeline not recognised")
+    if len(forbs) == 1:
+        forb_call, returned_ok = forbs[0].value, unparse(rets[0].value) == unparse(forbs[0].targets[0])
+    elif not forbs and isinstance(rets[0].value, ast.Call) and call_name(rets[0].value) == ("forb",):
+        forb_call, returned_ok = rets[0].value, True  # `return forb(...)`
+    else:
         raise AnalysisError(f"{f.where}: mine/forb pipeline not recognised")
     mres = [unparse(e) for e in mines[0].targets[0].elts]
     margs = [unparse(x) for x in mines[0].value.args]
-    fargs = [unparse(x) for x in forbs[0].value.args]
-    if margs[:3] == [d_name, m, n] and fargs[:3] == mres + [m] and unparse(rets[0].value) == unparse(forbs[0].targets[0]):
+    fargs = [unparse(x) for x in forb_call.args]
+    if margs[:3] == [d_name, m, n] and fargs[:3] == mres + [m] and returned_ok:
         ctx.ok("C17-N1", f.where, "mine(D, m, n) -> forb(ci, goodpatts, m) -> result", f.node, f)
     else:
         ctx.violation("C17-N1", f, mines[0], f"the pipeline is mine({', '.join(margs)}) -> forb({', '.join(fargs)}); expected mine({d_name}, {m}, {n}) -> forb({', '.join(mres)}, {m}) and its result returned")
@@ -1157,9 +1163,9 @@ def rule_k2(ctx: Ctx) -> None:
     if len(inner.params) != 3:
         raise AnalysisError(f"{inner.where}: expected (perm, patt, shadings)")
     rs = inner.params[2]
-    clones = [c for c in find_clones(repo) if c[0] is inner]
-    if clones:
-        acc = _acceptance_nodes(inner)
+    acc = _acceptance_nodes(inner)
+    if acc:
+        # the hit cells are tested against the shadings here (whether they are computed here or in a helper – C17-K1)
         if len(acc) != 1:
             raise AnalysisError(f"{inner.where}: {len(acc)} acceptance tests found")
         par = parent_map(inner.node)
